@@ -32,13 +32,13 @@ theorem transM_nrs (cfg : Cfg) (hr : cfg.allowRestart = false) (sh : Shared) (n 
   | p5U => simp only [transM]; exact dtorReturn_nrs _ _
   | pollU k => simp only [transM]; split; exact pollExit_nrs _ _ _ _; simp [restartPc]
   | finU k => cases k <;> simp only [transM] <;> first | exact drainReturn_nrs _ _ _ | simp [restartPc]
-  | sFlagUA =>
+  | sFlagUA ep =>
     simp only [transM]; split
     · exact dtorEarly_nrs _ _
     · split
       · exact shutdownReturn_nrs _ _
       · simp [restartPc]
-  | sDoneZ => simp only [transM]; split; exact shutdownReturn_nrs _ _; simp [restartPc]
+  | sDoneZ ep => simp only [transM]; split; exact shutdownReturn_nrs _ _; simp [restartPc]
   | sBcast => simp only [transM]; split; simp [restartPc]; exact pollHead_nrs _ _ _
   | sChkU => simp only [transM]; split; exact pollHead_nrs _ _ _; simp [restartPc]
   | jUnone => simp only [transM]; split; simp [restartPc]; exact shutdownReturn_nrs _ _
